@@ -26,8 +26,8 @@ import (
 
 	"github.com/anyproto/any-sync/accountservice"
 	"github.com/anyproto/any-sync/app"
-	"github.com/anyproto/any-sync/app/ldiff"
-	"github.com/anyproto/any-sync/app/logger"
+	"github.com/anyproto/any-sync/commonspace/config"
+	"github.com/anyproto/any-sync/commonspace/credentialprovider"
 	"github.com/anyproto/any-sync/commonspace/deletionmanager"
 	"github.com/anyproto/any-sync/commonspace/deletionstate"
 	"github.com/anyproto/any-sync/commonspace/headsync"
@@ -36,6 +36,7 @@ import (
 	"github.com/anyproto/any-sync/commonspace/object/acl/list"
 	"github.com/anyproto/any-sync/commonspace/object/acl/recordverifier"
 	"github.com/anyproto/any-sync/commonspace/object/acl/syncacl"
+	"github.com/anyproto/any-sync/commonspace/object/keyvalue/kvinterfaces"
 	"github.com/anyproto/any-sync/commonspace/object/tree/objecttree"
 	"github.com/anyproto/any-sync/commonspace/object/tree/synctree"
 	"github.com/anyproto/any-sync/commonspace/object/tree/synctree/response"
@@ -43,6 +44,8 @@ import (
 	"github.com/anyproto/any-sync/commonspace/object/tree/treechangeproto"
 	"github.com/anyproto/any-sync/commonspace/object/tree/treestorage"
 	"github.com/anyproto/any-sync/commonspace/object/treemanager"
+	"github.com/anyproto/any-sync/commonspace/object/treesyncer"
+	"github.com/anyproto/any-sync/commonspace/peermanager"
 	"github.com/anyproto/any-sync/commonspace/settings"
 	"github.com/anyproto/any-sync/commonspace/settings/settingsstate"
 	"github.com/anyproto/any-sync/commonspace/spacestate"
@@ -52,9 +55,12 @@ import (
 	"github.com/anyproto/any-sync/commonspace/sync/syncdeps"
 	"github.com/anyproto/any-sync/commonspace/syncstatus"
 	"github.com/anyproto/any-sync/net/peer"
+	"github.com/anyproto/any-sync/nodeconf"
 	"github.com/anyproto/any-sync/util/simhook"
+	"storj.io/drpc"
 
 	"verif/sim/core"
+	"verif/sim/faultstore"
 	"verif/sim/simlib"
 )
 
@@ -122,6 +128,11 @@ type dnode struct {
 	acc      *simlib.Account
 	dir      string
 	db       anystore.DB
+	raw      anystore.DB
+	plan     *faultstore.Plan // non-nil: this node's storage calls can fail (armed during delete-worker steps)
+	hadFault bool
+	faulty   bool
+	final    bool // the final restart has happened
 	ss       spacestorage.SpaceStorage
 	acl      list.AclList
 	a        *app.App
@@ -129,15 +140,13 @@ type dnode struct {
 	delMgr   deletionmanager.DeletionManager
 	settings settings.SettingsObject
 	trees    map[string]synctree.SyncTree
-	diff     ldiff.Diff
-	dm       *headsync.DiffManager
+	hs       headsync.HeadSync
 	up       bool
 	client   *dclient
 	// the deleter goroutine parks here inside DeleteTree
 	parked  chan string   // id the deleter wants to delete (sent when it parks)
 	release chan struct{} // closed/sent to let it proceed
 	waiting string        // id currently parked ("" = none)
-	headQ   []headstorage.HeadsEntry
 	// oracle bookkeeping (survives restarts)
 	tomb      map[string]headstorage.DeletedStatus
 	leftDiff  map[string]bool
@@ -352,23 +361,58 @@ type aclStub struct {
 func (a aclStub) Id() string            { return a.l.Id() }
 func (a aclStub) Head() *list.AclRecord { return a.l.Head() }
 
-type hsObserver struct{ n *dnode }
+// harness components the real head-sync component asks for
+type dsConfig struct{}
 
-// the head updater of the diff syncer is a FIFO drained by its own goroutine; here the queue is drained
-// by the event loop after every event (drainHeads)
-func (o hsObserver) OnUpdate(e headstorage.HeadsEntry) { o.n.headQ = append(o.n.headQ, e) }
+func (dsConfig) Init(*app.App) error     { return nil }
+func (dsConfig) Name() string            { return "config" }
+func (dsConfig) GetSpace() config.Config { return config.Config{} }
 
-func (n *dnode) drainHeads() {
-	for len(n.headQ) > 0 {
-		e := n.headQ[0]
-		n.headQ = n.headQ[1:]
-		n.dm.UpdateHeads(e)
-	}
-}
+func (a aclStub) Init(*app.App) error         { return nil }
+func (a aclStub) Name() string                { return syncacl.CName }
+func (a aclStub) Run(context.Context) error   { return nil }
+func (a aclStub) Close(context.Context) error { return nil }
+
+type dsNodeConf struct{ nodeconf.NodeConf }
+
+func (dsNodeConf) Init(*app.App) error { return nil }
+func (dsNodeConf) Name() string        { return nodeconf.CName }
+
+type dsPeerManager struct{}
+
+func (dsPeerManager) Init(*app.App) error                                      { return nil }
+func (dsPeerManager) Name() string                                             { return peermanager.CName }
+func (dsPeerManager) GetResponsiblePeers(context.Context) ([]peer.Peer, error) { return nil, nil }
+func (dsPeerManager) GetNodePeers(context.Context) ([]peer.Peer, error)        { return nil, nil }
+func (dsPeerManager) BroadcastMessage(context.Context, drpc.Message) error     { return nil }
+func (dsPeerManager) SendMessage(context.Context, string, drpc.Message) error  { return nil }
+func (dsPeerManager) KeepAlive(context.Context)                                {}
+
+type dsTreeSyncer struct{}
+
+func (dsTreeSyncer) Init(*app.App) error                                          { return nil }
+func (dsTreeSyncer) Name() string                                                 { return treesyncer.CName }
+func (dsTreeSyncer) Run(context.Context) error                                    { return nil }
+func (dsTreeSyncer) Close(context.Context) error                                  { return nil }
+func (dsTreeSyncer) StartSync()                                                   {}
+func (dsTreeSyncer) StopSync()                                                    {}
+func (dsTreeSyncer) ShouldSync(string) bool                                       { return false }
+func (dsTreeSyncer) SyncAll(context.Context, peer.Peer, []string, []string) error { return nil }
+
+type dsKeyValue struct{ kvinterfaces.KeyValueService }
+
+func (dsKeyValue) Init(*app.App) error         { return nil }
+func (dsKeyValue) Name() string                { return kvinterfaces.CName }
+func (dsKeyValue) Run(context.Context) error   { return nil }
+func (dsKeyValue) Close(context.Context) error { return nil }
 
 func (n *dnode) start(create bool) {
 	w := n.w
-	n.db = simlib.OpenStore(filepath.Join(n.dir, "store.db"))
+	n.raw = simlib.OpenStore(filepath.Join(n.dir, "store.db"))
+	n.db = n.raw
+	if n.plan != nil {
+		n.db = faultstore.Wrap(n.raw, n.plan)
+	}
 	var err error
 	if create {
 		n.ss, err = spacestorage.Create(ctxb, n.db, w.space.Payload)
@@ -391,19 +435,42 @@ func (n *dnode) start(create bool) {
 	n.a = new(app.App)
 	n.delState = deletionstate.New()
 	n.delMgr = deletionmanager.New()
+	n.hs = headsync.New()
 	n.a.Register(n.ss).
 		Register(&spacestate.SpaceState{SpaceId: w.space.Id, SpaceIsClosed: &atomic.Bool{}, TreesUsed: &atomic.Int32{}, TreeBuilderFunc: objecttree.BuildObjectTree}).
-		Register(&treeMgr{n}).Register(&accComp{n.acc.Keys}).Register(n.delState).Register(n.delMgr)
-	if err := n.a.Start(ctxb); err != nil {
+		Register(&treeMgr{n}).Register(&accComp{n.acc.Keys}).Register(n.delState).Register(n.delMgr).
+		Register(dsConfig{}).Register(aclStub{l: n.acl}).Register(dsNodeConf{}).Register(dsPeerManager{}).Register(credentialprovider.NewNoOp()).
+		Register(dsTreeSyncer{}).Register(dsKeyValue{}).Register(n.hs)
+	// On a restart the delete worker (started by the deletion manager, which runs before head sync) may get
+	// through its pending work while head sync is still starting: the seed decides whether the worker is
+	// stepped in the middle of head sync's start-up (at the storage write that ends the index fill).
+	if !create && n.plan != nil && w.r.Src.Flip("worker-runs-during-head-sync-start", 0.5) {
+		stepped := false
+		n.plan.Hook = func(_ int, name string) {
+			if stepped || !strings.Contains(name, "coll(state).UpsertId") {
+				return
+			}
+			stepped = true
+			for k := 0; k < 3; k++ {
+				synctest.Wait()
+				if n.waiting == "" {
+					break
+				}
+				n.release <- struct{}{}
+				w.r.Probe("worker-stepped-during-head-sync-start")
+			}
+			synctest.Wait()
+		}
+		n.plan.Calls, n.plan.FailAt, n.plan.Armed = nil, 0, true
+	}
+	err = n.a.Start(ctxb)
+	if n.plan != nil {
+		n.plan.Armed, n.plan.Hook = false, nil
+	}
+	if err != nil {
 		w.r.Fail("node-start-failed", "", "%s: %v", n.name, err)
 	}
 	synctest.Wait() // the delete loop's first pass runs up to its first blocking point
-	n.diff = ldiff.New(32, 256)
-	n.dm = headsync.NewDiffManager(n.diff, n.ss, aclStub{l: n.acl}, logger.NewNamed("sim.diffmanager"), ctxb, n.delState)
-	if err := n.dm.FillDiff(ctxb); err != nil {
-		w.r.Fail("node-start-failed", "filldiff", "%s: %v", n.name, err)
-	}
-	n.ss.HeadStorage().AddObserver(hsObserver{n})
 	n.settings = settings.NewSettingsObject(settings.Deps{
 		BuildFunc: func(ctx context.Context, id string, l updatelistener.UpdateListener) (synctree.SyncTree, error) {
 			return synctree.BuildSyncTreeOrGetRemote(ctx, id, n.deps(l))
@@ -419,11 +486,10 @@ func (n *dnode) start(create bool) {
 
 func (n *dnode) stop() {
 	n.up = false
-	n.headQ = nil
 	_ = n.settings.Close()
 	_ = n.a.Close(ctxb) // cancels the delete loop (a parked DeleteTree returns ctx.Err)
 	synctest.Wait()
-	_ = n.db.Close()
+	_ = n.raw.Close()
 	n.waiting = ""
 }
 
@@ -557,10 +623,10 @@ func (n *dnode) check(when string) {
 	}
 	w, r := n.w, n.w.r
 	w.flushReqs()
-	n.drainHeads()
+	synctest.Wait() // the head updater applies queued head-storage updates on its own goroutine
 	ents := n.entries()
 	inDiff := map[string]bool{}
-	for _, id := range n.dm.AllIds() {
+	for _, id := range n.hs.AllIds() {
 		inDiff[id] = true
 	}
 	for _, o := range w.objs {
@@ -609,7 +675,9 @@ func (n *dnode) check(when string) {
 			if !has {
 				continue
 			}
-			if n.waiting == "" && n.tomb[o.parent.id] >= headstorage.DeletedStatusDeleted && e.DeletedStatus < headstorage.DeletedStatusQueued {
+			// (after a failed storage call the cascade to a child may be left undone until the orphan scan of the
+			// next start: judged after the final restart for such a node)
+			if n.waiting == "" && (!n.hadFault || n.final) && n.tomb[o.parent.id] >= headstorage.DeletedStatusDeleted && e.DeletedStatus < headstorage.DeletedStatusQueued {
 				r.Fail("child-not-queued", "", "%s (%s): %s is stored, its parent is deleted, but the child is not queued for deletion", n.name, when, o)
 			}
 			if n.lateChild[o.id] && e.DeletedStatus < headstorage.DeletedStatusQueued {
@@ -800,6 +868,11 @@ func runC15(r *core.Run) {
 	w.accs = []*simlib.Account{owner}
 	w.space = simlib.NewSpace(owner, 0)
 	nnodes := 2 + s.Choose("nnodes", 2)
+	faultNode := -1
+	if s.Flip("storage-faults", 0.3) {
+		faultNode = s.Choose("fault-node", nnodes)
+	}
+	r.SetCfg("storage_fault_node", faultNode)
 	for i := 1; i < nnodes; i++ {
 		w.accs = append(w.accs, simlib.NewAccount(fmt.Sprintf("acc%d", i)))
 	}
@@ -808,6 +881,8 @@ func runC15(r *core.Run) {
 		nd := &dnode{w: w, idx: i, name: pname(i), acc: w.accs[i], tomb: map[string]headstorage.DeletedStatus{}, leftDiff: map[string]bool{}, exists: map[string]bool{}, lateChild: map[string]bool{}}
 		nd.dir = filepath.Join(w.dir, nd.name)
 		must(os.MkdirAll(nd.dir, 0o755))
+		nd.plan = &faultstore.Plan{Reads: true}
+		nd.faulty = i == faultNode
 		w.nodes = append(w.nodes, nd)
 		nd.start(true)
 	}
@@ -908,9 +983,24 @@ func runC15(r *core.Run) {
 		case 6: // the delete worker proceeds by one object
 			nd := parked[s.Choose("parked", len(parked))]
 			id := nd.waiting
+			armed := false
+			if nd.faulty && s.Flip("storage-fault-in-step", 0.5) {
+				nd.plan.Calls, nd.plan.FailAt, nd.plan.Armed = nil, 1+s.Choose("fail-at", 10), true
+				armed = true
+			}
 			nd.release <- struct{}{}
 			synctest.Wait()
-			r.Event("deleter-step", "%s deletes %s", nd.name, w.byId[id])
+			failed := ""
+			if armed {
+				nd.plan.Armed = false
+				if nd.plan.Fired > 0 {
+					r.Fault("storage-error")
+					nd.hadFault = true
+					failed = " (a storage call failed: " + nd.plan.Calls[len(nd.plan.Calls)-1] + ")"
+					nd.plan.Fired = 0
+				}
+			}
+			r.Event("deleter-step", "%s deletes %s%s", nd.name, w.byId[id], failed)
 			nd.check("after deleter step")
 		case 7: // restart (possibly between "queued" and "deleted", or between two objects of a pass)
 			nd := u[s.Choose("node", len(u))]
@@ -1007,7 +1097,9 @@ func runC15(r *core.Run) {
 			if o == nil {
 				continue
 			}
-			if e, ok := nd.entries()[id]; ok && e.DeletedStatus != headstorage.DeletedStatusDeleted {
+			// (a node whose status write failed holds the deletion in memory only until its next start: judged
+			// after the final restart below)
+			if e, ok := nd.entries()[id]; ok && e.DeletedStatus != headstorage.DeletedStatusDeleted && !nd.hadFault {
 				r.Fail("deletion-not-carried-out", "", "%s: the settings log records the deletion of %s but after the deleter ran to completion its status is %d", nd.name, o, e.DeletedStatus)
 			}
 		}
@@ -1017,6 +1109,7 @@ func runC15(r *core.Run) {
 		nd.check("before final restart")
 		nd.stop()
 		nd.start(false)
+		nd.final = true
 	}
 	runWorkers()
 	time.Sleep(21 * time.Second)
